@@ -364,7 +364,24 @@ func (cw *commandUnit) Cancel() error {
 	}
 
 	verifPoint("cancel.signalled", "")
-	proc.Wait()
+	exited := make(chan struct{})
+	go func() {
+		_, _ = proc.Wait()
+		close(exited)
+	}()
+waitForRunner:
+	for {
+		select {
+		case <-exited:
+			break waitForRunner
+		case <-time.After(time.Second):
+			// A runner started with the interrupt signal ignored (receptor running under nohup or
+			// as a background job of a shell) only reacts to it once it has installed its handler:
+			// an interrupt that arrived before that was discarded, and waiting for the runner
+			// would last as long as the job.  Repeat the signal until the runner is gone.
+			_ = proc.Signal(os.Interrupt)
+		}
+	}
 	verifPoint("cancel.before_write", "")
 
 	cw.UpdateFullStatus(func(status *StatusFileData) {
